@@ -74,6 +74,7 @@ theorem spec_markStmt : Spec t markStmt := by unfold markStmt; spec_steps [spec_
 theorem spec_allOperand : Spec t allOperand := by unfold allOperand; spec_steps
 theorem spec_defaultOperand : Spec t defaultOperand := by unfold defaultOperand; spec_steps
 theorem spec_varOperand : Spec t varOperand := by unfold varOperand; spec_steps
+theorem spec_operandKind : Spec t operandKind := by unfold operandKind; spec_steps
 theorem spec_zoneRange : Spec t zoneRange := by unfold zoneRange; spec_steps [spec_rangeRegs _ _]
 theorem spec_matrixRange (w : String) (a b : Reg) : Spec t (matrixRange w a b) := by
   unfold matrixRange; spec_steps [spec_rangeRegs _ _]
@@ -275,14 +276,16 @@ theorem spec_operandName : Spec t operandName := by
     simp [getSt_bind, hty]
     split <;> exact ⟨_, rfl⟩
 
-theorem spec_printfStmt : Spec t printfStmt := by
-  unfold printfStmt
-  refine Spec.bind spec_skipToken (fun _ => ?_)
+theorem spec_printfRest : Spec t printfRest := by
+  unfold printfRest
   refine spec_bind_currentStr (fun v => ?_) ?_
   · spec_steps [spec_outRvalues _]
   · intro st hst hty
     simp
     exact ⟨_, rfl⟩
+
+theorem spec_printfStmt : Spec t printfStmt := by
+  unfold printfStmt; spec_steps [spec_printfRest]
 
 theorem spec_macroDefinition (name : String) (hn : nameLike name = true) :
     Spec t (macroDefinition name) := by
@@ -415,8 +418,36 @@ theorem spec_definitionRest (name : String) (hn : nameLike name = true) {body : 
   unfold definitionRest
   spec_steps [spec_routinePart _ _ hb, spec_macroDefinition _ hn]
 
+theorem spec_repeatRest {body : M Unit} (hb : Spec t body) : Spec t (repeatRest body) := by
+  refine ⟨fun st h => Res.GoodX.toGood ?_⟩
+  unfold repeatRest
+  refine goodX_bind (sh1 := true :: shape st.loops) ?_ ?_
+  · exact ⟨⟨inv_of_eq h rfl rfl rfl, List.suffix_refl _, rfl⟩, rfl⟩
+  intro _ s2 h2 hs2
+  refine goodX_bind (sh1 := true :: shape st.loops) ?_ ?_
+  · have := ((spec_repeatBody hb).run s2 h2.inv).toX
+    rw [hs2] at this; exact this
+  intro _ s3 h3 hs3
+  exact goodX_closeLoop h3.inv hs3
+
 theorem spec_getSt_bind_pt {f : St → M β} (h : ∀ s, Inv s → (f s s).Good t s) :
     Spec t (getSt >>= f) := ⟨fun st hst => by rw [getSt_bind]; exact h st hst⟩
+
+theorem spec_definitionNamed {body : M Unit} (hb : Spec t body) :
+    Spec t (definitionNamed body) := by
+  unfold definitionNamed
+  refine spec_getSt_bind_pt (fun st h => ?_)
+  by_cases hty : st.cur.ty = .name
+  · have hne : (st.cur.ty != TT.name) = false := by rw [hty]; rfl
+    simp only [hne, Bool.false_eq_true, if_false]
+    have hk := h.toks st.cur (by simp [St.toks])
+    simp only [tokOk, hty] at hk
+    have hs : st.cur.str = st.cur.content := by simp [Tok.str, hty, TT.hasString]
+    refine Spec.run ?_ st h
+    spec_steps [spec_definitionRest _ (by rw [hs]; exact hk) hb]
+  · have hne : (st.cur.ty != TT.name) = true := by simpa using hty
+    simp only [hne, if_true]
+    exact (spec_tokenError _ _).run st h
 
 theorem spec_stmtFamily : ∀ f,
     Spec false (command f) ∧ Spec false (commandSeq f) ∧ Spec false (compoundMore f) ∧
@@ -457,41 +488,15 @@ theorem spec_stmtFamily : ∀ f,
     · unfold compoundMore; spec_steps
     · unfold ifStmt
       spec_steps [spec_rvalueTop _ _, spec_ifTrueStart, spec_ifElse _, spec_ifEnd _]
-    · -- repeatStmt
-      refine ⟨fun st h => Res.GoodX.toGood ?_⟩
-      unfold repeatStmt
-      refine goodX_bind (spec_skipToken.run st h).toX ?_
-      intro _ s1 h1 hs1
-      refine goodX_bind (sh1 := true :: shape st.loops) ?_ ?_
-      · exact ⟨⟨inv_of_eq h1.inv rfl rfl rfl, List.suffix_refl _, rfl⟩, by simp [shape] at hs1 ⊢; exact hs1⟩
-      intro _ s2 h2 hs2
-      refine goodX_bind (sh1 := true :: shape st.loops) ?_ ?_
-      · have := ((spec_repeatBody ihS).run s2 h2.inv).toX
-        rw [hs2] at this; exact this
-      intro _ s3 h3 hs3
-      exact goodX_closeLoop h3.inv hs3
-    · -- definition
-      unfold definition
-      refine Spec.bind spec_skipToken (fun _ => ?_)
-      refine spec_getSt_bind_pt (fun st h => ?_)
-      by_cases hty : st.cur.ty = .name
-      · have hne : (st.cur.ty != TT.name) = false := by rw [hty]; rfl
-        simp only [hne, Bool.false_eq_true, if_false]
-        have hk := h.toks st.cur (by simp [St.toks])
-        simp only [tokOk, hty] at hk
-        have hs : st.cur.str = st.cur.content := by simp [Tok.str, hty, TT.hasString]
-        refine Spec.run ?_ st h
-        spec_steps [spec_definitionRest _ (by rw [hs]; exact hk) ihS]
-      · have hne : (st.cur.ty != TT.name) = true := by simpa using hty
-        simp only [hne, if_true]
-        exact (spec_tokenError _ _).run st h
+    · unfold repeatStmt; spec_steps [spec_repeatRest ihS]
+    · unfold definition; spec_steps [spec_definitionNamed ihS]
     · intro o; unfold action
       spec_steps [spec_modifySt_same fun _ => ⟨rfl, rfl, rfl, rfl, rfl⟩, spec_allOperand,
         spec_defaultOperand, ihT _]
     · intro o; unfold operandThenMore
       spec_steps [spec_modifySt_same fun _ => ⟨rfl, rfl, rfl, rfl, rfl⟩, ihT _]
     · unfold operand
-      spec_steps [spec_operandName, spec_zoneRange]
+      spec_steps [spec_operandKind, spec_operandName, spec_zoneRange]
     · unfold matrixOperandList
       spec_steps [spec_blockOperand ihS, spec_inlineOperand]
 
